@@ -6,13 +6,39 @@ import AttrsModel.Model.C03
 
 namespace Attrs.C03
 
-/-- distinct field names, no `cmp` mixed with `eq` (that is C15's business) -/
+/-- "When attrs generates equality": distinct field names, no `cmp` mixed with `eq` (that is C15's
+    business), and the class-level arguments / class body are such that equality is generated. -/
 def wf (c : Case) : Bool :=
   c.fields.all (fun f => (effEq f).isSome) &&
-  (c.fields.map (·.name)).eraseDups.length == c.fields.length
+  (c.fields.map (·.name)).eraseDups.length == c.fields.length &&
+  generates c
 
 /-- every eq-participating field compares truthy -/
 def allEqual (c : Case) : Bool := (c.fields.filter participates).all (fun f => (outcome f).isTruthy)
+
+/-- the first class along an MRO that has the name at all -/
+def resolved (slots : List Slot) : Slot := (slots.find? Slot.present).getD .absent
+
+/-- Python's default once the left operand has declined an operand of another class: a hand-written
+    `__eq__` resolved by the RIGHT operand's class answers; otherwise identity, and the operands differ. -/
+def pyDefaultEq (c : Case) : Res :=
+  match resolved ((rhsMro c).map (·.eq)) with
+  | .user o => Res.ofOutcome o
+  | _ => .F
+
+/-- the same for `!=`: the right operand's hand-written `__ne__`; else the negation of its hand-written
+    `__eq__` (`object.__ne__`, attrs' helper); else "not identical". -/
+def pyDefaultNe (c : Case) : Res :=
+  match resolved ((rhsMro c).map (·.ne)) with
+  | .user o => Res.ofOutcome o
+  | _ =>
+    match resolved ((rhsMro c).map (·.eq)) with
+    | .user o => Res.ofBool (!o.isTruthy)
+    | _ => .T
+
+/-- only participating fields are ever compared, each with `==` and through its key if it has one -/
+def onlyParticipating (c : Case) (tr : List String) : Bool :=
+  tr.all (fun t => (c.fields.filter participates).any (fun f => tag f == t))
 
 def spec (c : Case) (o : Obs) : Bool :=
   if sameClass c.rhs then
@@ -23,12 +49,11 @@ def spec (c : Case) (o : Obs) : Bool :=
     -- != is always the negation (a real bool)
     o.neDirect == Res.ofBool (!allEqual c) &&
     o.neOp == Res.ofBool (!allEqual c) &&
-    -- only participating fields are ever compared, each through its key if it has one
-    o.trace.all (fun t => (c.fields.filter participates).any (fun f => tag f == t))
+    onlyParticipating c o.trace && onlyParticipating c o.neTrace
   else
-    -- any other right operand: both methods NotImplemented, Python falls back to identity
+    -- any other right operand: both methods NotImplemented, nothing compared, Python falls back to its default
     o.eqDirect == .NI && o.neDirect == .NI &&
-    o.eqOp == .F && o.neOp == .T && o.trace == []
+    o.eqOp == pyDefaultEq c && o.neOp == pyDefaultNe c && o.trace == [] && o.neTrace == []
 
 def known (_ : Case) : List String := []
 
